@@ -123,20 +123,27 @@ class InstTranslator(Translator):
         start = next((b for b in m.tree.body if isinstance(b, ast.ClassDef) and b.name == cname), None)
         if start is None:
             raise Opaque("class %s not in %s" % (cname, m.dotted))
-        out, seen = [], set()
+        seq = []
 
-        def visit(mm, c):
-            key = (mm.dotted, c.name)
-            if key in seen:
-                return
-            seen.add(key); out.append((mm, c))
+        def visit(mm, c, depth=0):
+            if depth > 20:
+                raise Opaque("class hierarchy too deep")
+            seq.append((mm, c))
             for b in c.bases:
                 try:
                     bm, bc = self.class_def(mm, b)
                 except Opaque:
                     continue          # object, abc.ABC, external bases
-                visit(bm, bc)
+                visit(bm, bc, depth + 1)
         visit(m, start)
+        # a class comes after all of its subclasses (as in Python's MRO for these diamond-free-or-simple hierarchies):
+        # keep the LAST occurrence of every class of the pre-order walk
+        out, seen = [], set()
+        for mm, c in reversed(seq):
+            key = (mm.dotted, c.name)
+            if key not in seen:
+                seen.add(key); out.append((mm, c))
+        out.reverse()
         return out
 
     # ---------------------------------------------------------------- expressions
@@ -316,12 +323,34 @@ class InstTranslator(Translator):
         return out
 
 
+def _value_of(self, dotted, cname, method, params):
+    """expression of a method returning a number (e.g. convolution_point)"""
+    m = self.mod(dotted)
+    if m is None:
+        raise Opaque("module %s not found" % dotted)
+    inst = Instance(self, m, cname, params)
+    bm = inst.method(method)
+    if bm is None:
+        raise Opaque("no method %s" % method)
+    r = self.call_method(bm, [])
+    if not isinstance(r, V) or r.im is not None:
+        raise Opaque("%s.%s does not return a real number" % (cname, method))
+    return r.re
+
+
+InstTranslator.value_of = _value_of
+
+# convolution points that differ from x: the attribute x is the variable z, labda is args[0]
+VALUE_TARGETS = [("yadism.coefficient_functions.heavy.%s_cc" % k, "NonSinglet", "convolution_point", {"labda": V(("arg", 0)), "x": V(("z",))}) for k in ("f2", "fl", "f3")]
+
 # the instance-closure kernels that are translated, with the attribute that becomes args[0]
 TARGETS = [
     ("yadism.coefficient_functions.heavy.%s_cc" % k, cls, meth, {"labda": V(("arg", 0))})
     for k in ("f2", "fl", "f3") for cls, meth in (("NonSinglet", "LO"), ("NonSinglet", "NLO"), ("Gluon", "NLO"))
 ] + [
     ("yadism.coefficient_functions.asy.%s_cc" % k, "AsyGluon", "NLO", {"L": V(("arg", 0))}) for k in ("f2", "fl", "f3")
+] + [
+    ("yadism.coefficient_functions.asy.%s_cc" % k, "AsyQuark", "LO", {"L": V(("arg", 0))}) for k in ("f2", "f3")
 ]
 
 
@@ -371,6 +400,13 @@ def inst_kernels_v(repo):
             if res[part] is not None:
                 L.append("Definition %s : expr := %s." % (inst_ident(dotted, cname, meth, part), pyk2coq.coq(res[part])))
         table.append('  ("%s", Some (%s, %s, %s))' % (key, *[("Some " + inst_ident(dotted, cname, meth, p)) if res[p] is not None else "None" for p in ("reg", "sing", "loc")]))
+    for dotted, cname, meth, params in VALUE_TARGETS:
+        key = "%s.%s.%s" % (dotted, cname, meth)
+        try:
+            e = InstTranslator(repo).value_of(dotted, cname, meth, params)
+            L.append("Definition iv_%s_%s_%s_%s : expr := %s." % (dotted.split(".")[-2], dotted.split(".")[-1], cname, meth, pyk2coq.coq(e)))
+        except Opaque as ex:
+            L.append("(* %s: OPAQUE: %s *)" % (key, str(ex).replace("*)", "* )")))
     L.append("")
     L.append("Definition inst_table : list (string * option (option expr * option expr * option expr)) := [")
     L.append(";\n".join(table))
